@@ -418,16 +418,17 @@ package eval
 
 //@ func executeOperatorProxy C04 C05
 //@   requires [node] (and (not (= $n 0)) (not (= (fld $n operator) 0)) (=> (or (= (KIND $n) 3) (= (KIND $n) 4)) (is.string (fld $n value))))
-//@   ensures [and-false] (=> (and (ISAND $n) (HAS $params (V_bool false))) (and (= $ret0 (V_bool false)) (= $ret1 ENil) (= (heap dyn.n) (old (heap dyn.n)))))
-//@   ensures [or-true] (=> (and (not (and (ISAND $n) (HAS $params (V_bool false)))) (ISOR $n) (HAS $params (V_bool true)))
+//@   ensures [and-false] (=> (and (ISAND $n) (old (HAS $params (V_bool false)))) (and (= $ret0 (V_bool false)) (= $ret1 ENil) (= (heap dyn.n) (old (heap dyn.n)))))
+//@   ensures [or-true] (=> (and (not (and (ISAND $n) (old (HAS $params (V_bool false))))) (ISOR $n) (old (HAS $params (V_bool true))))
 //@        (and (= $ret0 (V_bool true)) (= $ret1 ENil) (= (heap dyn.n) (old (heap dyn.n)))))
-//@   ensures [dne-poisons] (=> (and (not (and (ISAND $n) (HAS $params (V_bool false)))) (not (and (ISOR $n) (HAS $params (V_bool true)))) (HAS $params (DNEVAL)))
+//@   ensures [dne-poisons] (=> (and (not (and (ISAND $n) (old (HAS $params (V_bool false))))) (not (and (ISOR $n) (old (HAS $params (V_bool true))))) (old (HAS $params (DNEVAL))))
 //@        (and (= $ret0 (DNEVAL)) (= $ret1 ENil) (= (heap dyn.n) (old (heap dyn.n)))))
-//@   ensures [otherwise-operator] (=> (and (not (and (ISAND $n) (HAS $params (V_bool false)))) (not (and (ISOR $n) (HAS $params (V_bool true)))) (not (HAS $params (DNEVAL))))
+//@   ensures [otherwise-operator] (=> (and (not (and (ISAND $n) (old (HAS $params (V_bool false))))) (not (and (ISOR $n) (old (HAS $params (V_bool true))))) (not (old (HAS $params (DNEVAL)))))
 //@        (and (= (heap dyn.n) (+ (old (heap dyn.n)) 1)) (= (select (heap dyn.fn) (old (heap dyn.n))) (fld $n operator))
 //@             (= $ret0 (dynres_0_Val (fld $n operator) (old (heap dyn.n)))) (= $ret1 (dynres_1_Err (fld $n operator) (old (heap dyn.n))))))
 //@   ensures [error-identity] (=> (not (= $ret1 ENil)) (= $ret1 (heap last.err)))
-//@   assigns dyn.* last.err
+//@   ensures [only-the-argument-slice-may-be-written] (forall ((r Int)) (! (=> (not (= r (s_arr $params))) (= (select (heap E_Value) r) (select (old (heap E_Value)) r))) :pattern ((select (heap E_Value) r))))
+//@   assigns dyn.* last.err E_Value
 
 //@ func getNodeValueProxy C04 C05
 //@   requires [node] (and (not (= $n 0)) (not (= $ctx 0)) (not (= (fld $ctx VariableFetcher) VNil)) (=> (not (= (KIND $n) 1)) (is.string (fld $n value))))
@@ -1121,7 +1122,7 @@ package eval
 //@        (and (= (s_len ps) (len $params)) (or (= (len $params) 0) (>= (s_arr ps) (old (next))))
 //@             (forall ((k Int)) (! (=> (and (<= 0 k) (< k (len $params))) (= (select (select (heap E_Value) (s_arr ps)) (+ (s_off ps) k)) (select (old (arr $params)) (+ (off $params) k))))
 //@                :pattern ((select (select (heap E_Value) (s_arr ps)) (+ (s_off ps) k)))))))
-//@   ensures [caller-memory-untouched] (forall ((r Int)) (! (=> (< r (old (next))) (= (select (heap E_Value) r) (select (old (heap E_Value)) r))) :pattern ((select (heap E_Value) r))))
+//@   ensures [caller-memory-untouched] (forall ((r Int)) (! (=> (and (< r (old (next))) (not (= r (s_arr $params)))) (= (select (heap E_Value) r) (select (old (heap E_Value)) r))) :pattern ((select (heap E_Value) r))))
 //@   assigns next E_Value sent.* dyn.* last.err
 
 // ---------------------------------------------------------------------------
